@@ -378,6 +378,142 @@ def record_session(job):
     return {"seed": sd, "feats": feats, "ev": evs}
 
 
+# metadata sessions (WriterMetaSpec): key class -> (section, key,
+# {variant: (value handed to store_metadata, value the file must say)})
+META_KEYS = {
+    "user count": ("user", "count", {1: (3, 3), 2: (3.75, 3.75),
+                                     3: ("three", "three")}),
+    "user label": ("user", "label", {1: ("a", "a"),
+                                     2: ("a longer label with \u00fc",
+                                         "a longer label with \u00fc"),
+                                     3: (7, 7)}),
+    "user mixed": ("user", "mixed", {1: (True, True), 2: (2.5, 2.5),
+                                     3: ("text", "text")}),
+    "filter min": ("online_filter", "area_um min", {1: (50, 50),
+                                                    2: (50.5, 50.5),
+                                                    3: (7, 7)}),
+    "qpi scale": ("qpi", "scale to filter", {1: (False, False),
+                                             2: (2.5, 2.5),
+                                             3: (True, True)}),
+    "run index": ("experiment", "run index", {1: (1, 1), 2: ("2", 2),
+                                              3: (3.0, 3)}),
+    "pixel size": ("imaging", "pixel size", {1: (0.34, 0.34), 2: (1, 1.0),
+                                             3: ("0.5", 0.5)}),
+    "sample": ("experiment", "sample", {1: ("a", "a"),
+                                        2: ("a much longer sample name \u00fc",
+                                            "a much longer sample name \u00fc"),
+                                        3: ("b", "b")}),
+}
+
+
+def _kind(v):
+    import numbers
+    if isinstance(v, (bool, np.bool_)):
+        return "bool"
+    if isinstance(v, numbers.Integral):
+        return "int"
+    if isinstance(v, (float, np.floating)):
+        return "float"
+    if isinstance(v, (str, bytes)):
+        return "str"
+    return type(v).__name__
+
+
+def _meta_replay(job):
+    """one WriterMetaSpec history on the real writer; after every close the
+    file is opened and every key class compared (value, kind of value,
+    documented type; absent where the spec says absent)"""
+    import dclab
+    import os
+    import warnings
+    from dclab.rtdc_dataset import RTDCWriter
+    hist_, root = job
+    d = root / ("m%d_%d" % (os.getpid(), _meta_replay.n))
+    _meta_replay.n += 1
+    d.mkdir()
+    path = d / "m.rtdc"
+    steps, viol, hw = [], None, None
+    try:
+        for i, rec in enumerate(hist_):
+            st = rec["step"]
+            try:
+                if st["a"] == "open":
+                    steps.append("open:" + st["mode"])
+                    hw = RTDCWriter(path, mode=st["mode"])
+                    hw.__enter__()
+                    if "events" not in hw.h5file:
+                        hw.store_feature("deform", gen.scalar("deform",
+                                                              [1, 2, 3]))
+                elif st["a"] == "storemeta":
+                    steps.append("meta%d:%s" % (st["v"], ",".join(
+                        sorted(st["keys"]))))
+                    m = {}
+                    for kc in st["keys"]:
+                        sec, key, vals = META_KEYS[kc]
+                        m.setdefault(sec, {})[key] = vals[st["v"]][0]
+                    hw.store_metadata(m)
+                elif st["a"] == "close":
+                    steps.append("close")
+                    hw.__exit__(None, None, None)
+                    hw = None
+                if hw is not None and i < len(hist_) - 1:
+                    continue
+                if hw is not None:
+                    hw.__exit__(None, None, None)
+                    hw = None
+                with warnings.catch_warnings():
+                    warnings.simplefilter("ignore")
+                    with dclab.new_dataset(path) as ds:
+                        cfg = {sec: dict(ds.config[sec])
+                               for sec in ("user", "online_filter", "qpi",
+                                           "experiment", "imaging")
+                               if sec in ds.config}
+            except Exception as exc:
+                viol = ("metadata session raises %s" % type(exc).__name__,
+                        "steps %s: %r" % (steps, exc), i)
+                break
+            for kc, v in rec["meta"].items():
+                sec, key, vals = META_KEYS[kc]
+                present = key in cfg.get(sec, {})
+                if v == 0:
+                    if present:
+                        viol = ("metadata of a discarded file survive a "
+                                "reset", "steps %s: %s:%s = %r" % (
+                                    steps, sec, key, cfg[sec][key]), i)
+                    continue
+                want = vals[v][1]
+                if not present:
+                    viol = ("metadata key missing after store_metadata",
+                            "steps %s: %s:%s" % (steps, sec, key), i)
+                    break
+                got = cfg[sec][key]
+                typ = dclab.definitions.get_config_value_type(sec, key)
+                if got != want or _kind(got) != _kind(want) or (
+                        typ is not None and not isinstance(got, typ)):
+                    viol = ("metadata value written over an existing key "
+                            "reads back differently" if any(
+                                s.startswith("meta") for s in steps[:-1])
+                            and sum(1 for s in steps if s.startswith("meta"))
+                            > 1 else "metadata value reads back differently",
+                            "steps %s: %s:%s wrote %r (%s), read %r (%s)" % (
+                                steps, sec, key, vals[v][0], _kind(want), got,
+                                _kind(got)), i)
+                    break
+            if viol:
+                break
+    finally:
+        if hw is not None:
+            try:
+                hw.__exit__(None, None, None)
+            except Exception:
+                pass
+        shutil.rmtree(d, ignore_errors=True)
+    return {"steps": steps}, viol
+
+
+_meta_replay.n = 0
+
+
 def main(tier, seed, replay=None):
     import_dclab()
     ev = evidence.Evidence(PID, tier, seed)
@@ -392,7 +528,9 @@ def main(tier, seed, replay=None):
                "token (bit-exact) and compared with the specified content. "
                "non-trivial = at least two store calls; distinct by hash.")
     ev.assumptions = ["compression filters are lossless (h5py/hdf5plugin)",
-                      "metadata typing is decided by the C11 check"]
+                      "metadata: eight key classes with three payload "
+                      "variants of different Python types (WriterMetaSpec); "
+                      "the full type/representation table is the C11 check"]
     # 1. design level
     q = tier == "quick"
     ok = tlc.run("MC_Writer", DESIGN + BASE.format(
@@ -442,6 +580,30 @@ def main(tier, seed, replay=None):
                     if "+" in s or s.startswith("log:")) >= 2)
                 if viol:
                     rep.violation(viol[0], viol[1], case, size=viol[2])
+        # 2b. metadata sessions (WriterMetaSpec): last write wins, key by key
+        dm = 5 if q else 7
+        mres = tlc.run("WriterMetaSpec", "INIT MInit\nNEXT MNext\n"
+                       "CONSTRAINT HCon\nPROPERTY LastWriteWins\n"
+                       "PROPERTY NeverLost\nCONSTANTS\n Keys <- MCKeys\n"
+                       " Variants = {1, 2, 3}\n KeySets <- MCKeySets\n"
+                       " Modes <- AllModes\n MaxDepth = %d\n"
+                       "CHECK_DEADLOCK FALSE\n" % dm, workers=4,
+                       timeout=3000)
+        ev.add_tlc("WriterMetaSpec sessions depth %d" % dm, mres)
+        if not mres.ok:
+            raise tlc.TLCError("WriterMetaSpec violates %s" % mres.violated)
+        mh = mres.tagged("H")
+        cap = 2500 if q else 30000
+        if len(mh) > cap:
+            mh = par.sample(mh, len(mh) // cap + 1, seed)
+        ev.extra["metadata_sessions"] = len(mh)
+        for case, viol in par.pmap(_meta_replay, [(h, root) for h in mh],
+                                   chunk=40):
+            ev.traces += 1
+            ev.case(case, nontrivial=sum(1 for s_ in case["steps"]
+                                         if s_.startswith("meta")) >= 2)
+            if viol:
+                rep.violation(viol[0], viol[1], case, size=viol[2])
         # 3. code -> spec: long random sessions judged by TLC (WriterTrace)
         nses = 150 if q else 600
         recs = par.pmap(record_session,
